@@ -172,6 +172,16 @@ class ProgGen(object):
             return self.literal(t)
         k = t[0]
         if k == "list":
+            if "coll" in self.feat and d > 0 and scope is not None and not self.in_macro and self.r.random() < 0.4:
+                x = self.fresh("c")
+                lo = self.r.randint(-3, 3)
+                sc = Scope(scope)
+                sc.vars[x] = (SI, False)
+                body = self.expr(t[1], sc, d - 1)
+                if t[1] == SI:
+                    body = prim("si." + self.r.choice(["add", "mul", "sub"]), var(x), body)
+                return {"e": "collect", "t": t, "x": x, "src": {"e": "range", "lo": lit(SI, lo), "hi": lit(SI, lo + self.r.randint(-1, 5))},
+                        "cond": self.expr(BOOL, sc, d - 1) if self.r.random() < 0.5 else {"e": "none"}, "body": body}
             return {"e": "list", "t": t, "args": [self.expr(t[1], scope, d - 1) for _ in range(self.r.randint(0, 3))]}
         if k == "arr":
             return {"e": "newarr", "t": t, "n": lit(SI, self.r.randint(1, 4)), "init": self.expr(t[1], scope, d - 1)}
@@ -253,10 +263,32 @@ class ProgGen(object):
             choices += ["default"] * 2
             if t[0] == "list":
                 choices += ["cons"]
+                if "coll" in self.feat and d > 0 and not self.in_macro:
+                    choices += ["collect"] * 6          # opt-in feature: [e for x in l | c]
                 for x, (vt, _) in all_vars.items():
                     if tkey(vt) == tkey(t) and not nocond and self.in_fun:
                         choices.append(("rest", x))
         c = r.choice(choices)
+        if c == "collect":
+            x = self.fresh("c")
+            lists = [(v, vt) for v, (vt, _) in all_vars.items() if isinstance(vt, list) and vt[0] == "list"]
+            if lists and r.random() < 0.6:
+                v, vt = r.choice(lists)
+                src, et = var(v), vt[1]
+            elif r.random() < 0.5:
+                et = r.choice([SI, BI] if "bi" in self.feat else [SI])
+                src = self.default_value(["list", et], scope, d)
+            else:
+                et = SI
+                lo = r.randint(-3, 3)
+                src = {"e": "range", "lo": lit(SI, lo), "hi": lit(SI, lo + r.randint(-1, 5))}
+            sc = Scope(scope)
+            sc.vars[x] = (et, False)
+            cond = self.expr(BOOL, sc, d - 1) if r.random() < 0.5 else {"e": "none"}
+            body = self.expr(t[1], sc, d - 1)
+            if et == t[1] and r.random() < 0.7:         # make the element count
+                body = prim(("si" if et == SI else "bi") + "." + r.choice(["add", "mul", "sub"]), var(x), body)
+            return {"e": "collect", "t": t, "x": x, "src": src, "cond": cond, "body": body}
         if c == "var":
             return var(r.choice(vs))
         if c == "lit":
@@ -1087,7 +1119,7 @@ def generate(seed, n, features=None, emph=(), extras=True):
     for i in range(n):
         g = ProgGen(seed * 100003 + i, features=features, emph=emph)
         if extras and features is None and i % 3 == 2:
-            g.feat |= {"tup"}
+            g.feat |= {"tup", "coll"}
             if "try" in g.feat and i % 2:
                 g.enable_payload()
         out.append(g.program("g%d_%d" % (seed, i)))
